@@ -596,6 +596,9 @@ func (s *StringInfoElement) GetStringValue() string {
 }
 
 func (s *StringInfoElement) GetLength() int {
+	if s.element.Len < VariableLength {
+		return int(s.element.Len)
+	}
 	if len(s.value) < 255 {
 		return len(s.value) + 1
 	} else {
